@@ -87,9 +87,8 @@ class ContinuousSpace:
         self._agent_positions: np.array = np.empty(
             (n_agents, self.dimensions.shape[0]), dtype=float
         )
-        self.agent_positions: (
-            np.array
-        )  # a view on _agent_positions containing all active positions
+        # a view on _agent_positions containing all active positions
+        self.agent_positions: np.array = self._agent_positions[0:0]
 
         # the list of agents in the space
         self.active_agents = []
